@@ -12,7 +12,7 @@ All theorems quantify over every inner object `I` (in particular `ofBody b` for 
 and `logged I`, whose view is the list of calls that reached the inner object), every drive list
 and every stack depth.
 -/
-import Asynkit.Lemmas.C02
+import Asynkit.Lemmas.C02Proto
 
 namespace Asynkit.C02
 open Asynkit.Proto
@@ -260,5 +260,76 @@ example : NoOOBFirst (ofBody exBody) := by
 example : (coroIterO (logged (ofBody exBody))).run (coroIterO (logged (ofBody exBody))).init
     [.send 0, .throw (.other 1)] =
     [(.yield (.tok 1), [.send 0]), (.yield (.tok 2), [.send 0, .throw (.other 1)])] := by decide
+
+end Asynkit.C02
+
+/-! ### the same theorems against the shared reference `Proto.nativeAwait b`
+
+`protoOuts B ds` = outputs of drive list `ds` on the coroutine object `Proto.Coro` makes of a body
+`B` (Model/Proto.lean).  `proto_nativeAwait_outs` (Lemmas/C02Proto.lean) shows that
+`Proto.nativeAwait b` — literally `async def ref(c): return await c` over an arbitrary `b : Body` —
+has the same outputs as the object-level reference used above, so every headline theorem is, for
+every coroutine body `b`, a statement about `Proto.nativeAwait b`. -/
+namespace Asynkit.C02
+open Asynkit.Proto
+
+theorem proto_reference_eq (b : Body) (ds : List Drive) :
+    protoOuts (nativeAwait b) ds = (nativeAwaitO (ofBody b)).outs (nativeAwaitO (ofBody b)).init ds :=
+  proto_nativeAwait_outs b ds
+
+theorem coroIter_eq_nativeAwait (b : Body) (ds : List Drive) :
+    (coroIterO (ofBody b)).outs (coroIterO (ofBody b)).init ds = protoOuts (nativeAwait b) ds :=
+  (outs_of_run_eq (coroIter_equiv (ofBody b) ds)).trans (proto_nativeAwait_outs b ds).symm
+
+theorem awaitMethodIter_eq_nativeAwait (b : Body) (ds : List Drive) :
+    (awaitMethodIterO (ofBody b)).outs (awaitMethodIterO (ofBody b)).init ds = protoOuts (nativeAwait b) ds :=
+  coroIter_eq_nativeAwait b ds
+
+theorem awaitMethod_eq_nativeAwait (b : Body) (ds : List Drive) :
+    (nativeAwaitO (awaitMethodO (ofBody b))).outs (nativeAwaitO (awaitMethodO (ofBody b))).init ds
+      = protoOuts (nativeAwait b) ds :=
+  (proto_nativeAwait_outs b ds).symm
+
+theorem coroStart_eq_nativeAwait (b : Body) (ds : List Drive) :
+    (coroStartO (ofBody b)).outs (coroStartO (ofBody b)).init (.send 0 :: ds)
+      = protoOuts (nativeAwait b) (.send 0 :: ds) :=
+  (outs_of_run_eq (coroStart_equiv0 (ofBody b) ds)).trans (proto_nativeAwait_outs b _).symm
+
+theorem asCoroutine_eq_nativeAwait (b : Body) (ds : List Drive) :
+    (asCoroutineO (ofBody b)).outs (asCoroutineO (ofBody b)).init (.send 0 :: ds)
+      = protoOuts (nativeAwait b) (.send 0 :: ds) :=
+  (outs_of_run_eq (asCoroutine_equiv0 (ofBody b) ds)).trans (proto_nativeAwait_outs b _).symm
+
+theorem coroAwait_eq_nativeAwait (b : Body) (ds : List Drive) :
+    (coroAwaitO (ofBody b)).outs (coroAwaitO (ofBody b)).init ds = protoOuts (nativeAwait b) ds :=
+  (outs_of_run_eq (coroAwait_equiv (ofBody b) ds)).trans (proto_nativeAwait_outs b ds).symm
+
+theorem monitorAawait_eq_nativeAwait (b : Body) (hno : NoOOBFirst (ofBody b)) (ds : List Drive) :
+    (monitorAawaitO (ofBody b)).outs (monitorAawaitO (ofBody b)).init ds = protoOuts (nativeAwait b) ds :=
+  (outs_of_run_eq (monitorAawait_equiv (ofBody b) hno ds)).trans (proto_nativeAwait_outs b ds).symm
+
+theorem boundMonitor_eq_nativeAwait (b : Body) (hno : NoOOBFirst (ofBody b)) (ds : List Drive) :
+    (boundMonitorO (ofBody b)).outs (boundMonitorO (ofBody b)).init ds = protoOuts (nativeAwait b) ds :=
+  monitorAawait_eq_nativeAwait b hno ds
+
+/-- `NoOOBFirst` for a body, in terms of the body alone -/
+theorem noOOBFirst_ofBody (b : Body) (h : ∀ d, (b.resume b.init (.send 0)).2 ≠ .raise (.oobData d)) :
+    NoOOBFirst (ofBody b) := by
+  intro d hd
+  rcases hh : b.resume b.init (.send 0) with ⟨s', o⟩
+  have := h d
+  rw [hh] at this
+  rcases o with y | v | e
+  · simp [ofBody, coroObj, envObj, envAfter, hh] at hd
+  · simp [ofBody, coroObj, envObj, envAfter, hh] at hd
+  · cases e <;> simp_all [ofBody, coroObj, envObj, envAfter]
+
+/-- any non-empty stack of transparent wrappers around the coroutine of any body `b`, once
+    started, has exactly the outputs of `Proto.nativeAwait b` -/
+theorem stack_eq_nativeAwait (b : Body) (ws : List (Obj b.σ → Obj b.σ)) (hne : ws ≠ [])
+    (hw : ∀ w ∈ ws, Transparent w) (hI : NoOOBFirst (ofBody b)) (ds : List Drive) :
+    (stack ws (ofBody b)).outs (stack ws (ofBody b)).init (.send 0 :: ds)
+      = protoOuts (nativeAwait b) (.send 0 :: ds) :=
+  (outs_of_run_eq (stack_equiv0 ws hne hw (ofBody b) hI ds)).trans (proto_nativeAwait_outs b _).symm
 
 end Asynkit.C02
